@@ -104,7 +104,10 @@ def run_call(kind, objs, call, listeners, defaults=False):
         return (d - ep).total_seconds() / tick.total_seconds()
     out = []
     if call["op"] == "propagate":
-        r = obj.propagate(ep + tick * call["a"])
+        if defaults and kind.name not in ("ephem", "none") and call["a"] % 2:
+            r = obj.propagate(tick * call["a"])          # the other door: a duration counted from the orbit's own date
+        else:
+            r = obj.propagate(ep + tick * call["a"])
         out.append((off(r.date), r, None))
         return out, ep
     kw = {}
